@@ -86,24 +86,25 @@ const (
 
 func (e *Encoder) writeMap(data interface{}) (int, error) {
 	// object data MUST not be unpacked
-	vv := reflect.ValueOf(data)
+	source := reflect.ValueOf(data)
 
-	// check ref
-	if n, ok := e.checkEncodeRefMap(vv); ok {
-		return e.writeRef(n)
-	}
-
-	vv = UnpackPtrValue(vv)
+	vv := UnpackPtrValue(source)
 	// check nil map
 	if vv.Kind() == reflect.Ptr && !vv.Elem().IsValid() {
 		e.writeBT(_nilTag)
 		return 0, nil
 	}
 
+	// a nil or empty map is written as null and takes no ref ordinal
 	keys := vv.MapKeys()
 	if len(keys) == 0 {
 		e.writeBT(_nilTag)
 		return 0, nil
+	}
+
+	// check ref
+	if n, ok := e.checkEncodeRefMap(source); ok {
+		return e.writeRef(n)
 	}
 
 	typ := vv.Type()
